@@ -1994,6 +1994,11 @@ class TypeBlocks(ContainerOperand):
             # must check this case before general iterables, below
             if row_key.sum() == 1: #type: ignore
                 single_row = True
+        elif (row_key.__class__ is list and row_key
+                and row_key[0].__class__ in (bool, np.bool_)):
+            # a list of Booleans is a mask, as for an array: one True selects a single row
+            if sum(row_key) == 1:
+                single_row = True
         elif isinstance(row_key, KEY_ITERABLE_TYPES) and len(row_key) == 1:
             # an iterable of index integers is expected here
             single_row = True
